@@ -15,34 +15,62 @@ FUNCS = ['func.func_basis', 'func.func_get', 'func.func_gets', 'func.func_int',
 
 def _two_sided(prog, rep, qual):
     """outside-the-box test has both the a - x and the x - b side and leaves
-    the fill value in place (continue)."""
+    the fill value in place (continue).  The operands are identified by the
+    PARAMETER they derive from (points = first parameter, bounds = the
+    parameters a and b), not by the local names."""
+    from .. import roles
     fn = prog.func(qual)
     mod = fn.module
+    org = roles.origins(fn.node, fn.all_params)
+    pts = fn.params[0]
+
+    def role(e):
+        o = set()
+        for n in ast.walk(e):
+            if isinstance(n, ast.Name):
+                o |= org.get(n.id, set())
+        o &= {pts, 'a', 'b'}
+        return o
     found = False
     for node in ast.walk(fn.node):
         if isinstance(node, ast.If):
             sides = set()
-            vals_ = node.test.values if isinstance(node.test, ast.BoolOp) \
-                else [node.test]
-            for v in vals_:
-                for x in ast.walk(v):
-                    if isinstance(x, ast.BinOp) and isinstance(x.op, ast.Sub):
-                        l = x.left
-                        r = x.right
-                        ln = l.id if isinstance(l, ast.Name) else (
-                            l.value.id if isinstance(l, ast.Subscript) and
-                            isinstance(l.value, ast.Name) else None)
-                        rn = r.id if isinstance(r, ast.Name) else (
-                            r.value.id if isinstance(r, ast.Subscript) and
-                            isinstance(r.value, ast.Name) else None)
-                        if ln == 'a' and rn == 'X':
-                            sides.add('low')
-                        if ln == 'X' and rn == 'b':
-                            sides.add('high')
+            tests = [node.test]
+            # nested form:  if skip_out: if <cond>: continue
             skips = any(isinstance(s, ast.Continue) for s in node.body)
-            if sides or skips:
+            if not skips:
+                continue
+            cur = getattr(node, '_parent', None)
+            while isinstance(cur, ast.If) and len(cur.body) == 1:
+                tests.append(cur.test)
+                cur = getattr(cur, '_parent', None)
+            for tst in tests:
+                for x in ast.walk(roles.inline(fn.node, tst)):
+                    if isinstance(x, ast.BinOp) and isinstance(x.op, ast.Sub):
+                        lo_, ro_ = role(x.left), role(x.right)
+                        if lo_ == {'a'} and ro_ == {pts}:
+                            sides.add('low')
+                        if lo_ == {pts} and ro_ == {'b'}:
+                            sides.add('high')
+                    if isinstance(x, ast.Compare) and len(x.ops) == 1:
+                        # direct comparisons:  x < a  /  x > b
+                        l_, r_ = role(x.left), role(x.comparators[0])
+                        op_ = type(x.ops[0])
+                        if (l_, r_) == ({pts}, {'a'}) and op_ in (ast.Lt,
+                                                                  ast.LtE):
+                            sides.add('low')
+                        if (l_, r_) == ({'a'}, {pts}) and op_ in (ast.Gt,
+                                                                  ast.GtE):
+                            sides.add('low')
+                        if (l_, r_) == ({pts}, {'b'}) and op_ in (ast.Gt,
+                                                                  ast.GtE):
+                            sides.add('high')
+                        if (l_, r_) == ({'b'}, {pts}) and op_ in (ast.Lt,
+                                                                  ast.LtE):
+                            sides.add('high')
+            if sides:
                 found = True
-                ok = sides == {'low', 'high'} and skips
+                ok = sides == {'low', 'high'}
                 rep.add('P-two-sided', qual, paths.src(mod, node.test),
                         'ok' if ok else 'violation',
                         '' if ok else 'the outside-the-box test must cover '
@@ -57,17 +85,28 @@ def _two_sided(prog, rep, qual):
 
 
 def _raises(prog, rep, qual, what, pred):
+    """A documented rejection: some ``raise`` of the function is dominated by
+    the documented condition.  Found -> ok; the function (and the teneva
+    helpers it calls) raises nothing at all -> violation; a raise whose guard
+    is not recognised -> unknown."""
     fn = prog.func(qual)
     mod = fn.module
+    n_raise = 0
     for node in ast.walk(fn.node):
         if isinstance(node, ast.Raise):
+            n_raise += 1
             gs = paths.guards_of(fn.node, node)
             if pred(mod, fn, node, gs):
                 rep.ok('P-domain', qual, what)
                 return
-    rep.violation('P-domain', qual, what,
-                  'the documented rejection is missing or no longer guarded '
-                  'by its condition', line=fn.node.lineno, file=mod.path)
+    if n_raise == 0:
+        rep.violation('P-domain', qual, what,
+                      'the documented rejection is missing: the function '
+                      'raises nothing', line=fn.node.lineno, file=mod.path)
+    else:
+        rep.unknown('P-domain', qual, what, 'the function raises, but not '
+                    'under a recognised form of the documented condition',
+                    line=fn.node.lineno, file=mod.path)
 
 
 def check(an, rep, tier):
@@ -98,7 +137,7 @@ def check(an, rep, tier):
         rep.violation('X2-name', fn.qualname, n.id,
                       'name %s is not defined on this path' % n.id,
                       line=n.lineno, file=fn.module.path)
-    ds = (2, 3) if tier == 'quick' else (2, 3, 4)
+    ds = (2, 3) if tier == 'quick' else (2, 3, 4, 5)
     lb = {}
     for k in range(5):
         for p in ('A.n', 'Y.n', 'n', 'X.n'):
@@ -209,26 +248,53 @@ def check(an, rep, tier):
     _two_sided(prog, rep, 'func_full.func_get_full')
 
     def asym(mod, fn, node, gs):
-        # a holding comparison that involves abs(...) of both box bounds
-        # (parameters 2 and 3) at one and the same position
+        # a holding comparison (possibly inside any(...) / np.any(...)) that
+        # involves abs(...) of both box bounds (parameters 2 and 3) at one
+        # and the same position, before the data of the tensor is read
+        from .. import roles as _roles
         apar, bpar = fn.params[1], fn.params[2]
+        org = _roles.origins(fn.node, fn.all_params)
 
         def both_bounds(t):
-            subs = [x for x in ast.walk(t) if isinstance(x, ast.Subscript)
-                    and isinstance(x.value, ast.Name)]
-            ia = {ast.dump(x.slice) for x in subs if x.value.id == apar}
-            ib = {ast.dump(x.slice) for x in subs if x.value.id == bpar}
+            ia, ib = set(), set()
+            for x in ast.walk(t):
+                if isinstance(x, ast.Name) and isinstance(x.ctx, ast.Load):
+                    par_ = getattr(x, '_parent', None)
+                    key = ast.dump(par_.slice) if isinstance(
+                        par_, ast.Subscript) and par_.value is x else ''
+                    o = org.get(x.id, set()) & {apar, bpar}
+                    if o == {apar}:
+                        ia.add(key)
+                    elif o == {bpar}:
+                        ib.add(key)
             has_abs = any(isinstance(c, ast.Call) and
                           (getattr(c.func, 'id', None) == 'abs' or
-                           getattr(c.func, 'attr', None) in ('abs', 'fabs'))
+                           getattr(c.func, 'attr', None) in ('abs', 'fabs',
+                                                             'absolute'))
                           for c in ast.walk(t))
             return bool(ia & ib) and has_abs
-        return any(pol and isinstance(t, ast.Compare) and both_bounds(t)
-                   for t, pol in paths.guard_atoms(gs)) and \
-            node.lineno < min([n.lineno for n in ast.walk(fn.node)
-                               if isinstance(n, ast.Call) and
-                               isinstance(n.func, ast.Attribute) and
-                               n.func.attr == 'copy'] or [10**9])
+        tens = fn.params[0]
+        uses = []
+        for n in ast.walk(fn.node):
+            if isinstance(n, ast.Name) and n.id == tens and \
+                    isinstance(n.ctx, ast.Load):
+                par_ = getattr(n, '_parent', None)
+                if isinstance(par_, ast.Attribute) and \
+                        par_.attr in ('shape', 'ndim', 'dtype'):
+                    continue
+                if isinstance(par_, ast.Call) and \
+                        getattr(par_.func, 'id', None) == 'len':
+                    continue
+                uses.append(n.lineno)
+        first_use = min(uses or [10**9])
+        for t, pol in paths.guard_atoms(gs):
+            if not pol:
+                continue
+            t = _roles.inline(fn.node, t)
+            for sub_ in ast.walk(t):
+                if isinstance(sub_, ast.Compare) and both_bounds(sub_):
+                    return node.lineno < first_use
+        return False
     _raises(prog, rep, 'func_full.func_sum_full',
             'asymmetric box rejected before integrating', asym)
 
@@ -247,7 +313,7 @@ def check(an, rep, tier):
     rep.floor('S-dense', 4, 'dense result axes')
     rep.floor('U-deg', 7, 'differentiation matrix and integral scaling')
     rep.floor('X1-bind', 60, 'external calls bound')
-    rep.floor('S-einsum', 3, 'coefficient contractions')
+    rep.floor('S-einsum|S-tensordot', 3, 'coefficient contractions')
     rep.floor('S-ret', 8, 'TT results')
     rep.floor('P-two-sided', 2, 'box tests')
     rep.floor('P-domain', 3, 'rejections')
